@@ -100,8 +100,8 @@ class BasedRule(Rule):
 
     @cached_property
     def defines_single(self) -> list[str]:
-        return list(set(super().defines_single) | set(self.exp.defines_single))
+        return list(set(self.exp.defines_single))
 
     @cached_property
     def defines_list(self) -> list[str]:
-        return list(set(super().defines_list) | set(self.rhs.defines_list))
+        return list(set(self.exp.defines_list) | set(self.rhs.defines_list))
